@@ -220,3 +220,8 @@ m("c14-topological-ordering-in-place", ["C14"], U, "    A = A.copy()\n    sinks 
 m("c14-all-dags-returns-input", ["C14"], U, "        return np.array([pdag.copy()])", "        return pdag[None, :, :]", note="result is a view of the argument when there is nothing to orient")
 m("c14-conditional-caches-on-self", ["C14"], ND, "        cov_y = utils.matrix_block(self.covariance, Y, Y)", "        self._last = (Y, X)\n        cov_y = utils.matrix_block(self.covariance, Y, Y)", note="a query leaves state behind on the model")
 m("c14-lganm-shift-accumulates", ["C14"], L, "        variances = self.variances.astype(float)\n        means = self.means.astype(float)", "        variances = self.variances.astype(float)\n        means = self.means = self.means.astype(float)", note="shift interventions are then added to the model's own means")
+
+# ---- later additions
+m("c14-scalar-params-normalised-in-place", ["C14"], L, "    interventions = []\n    for (target, params) in interventions_dict.items():",
+  "    interventions = []\n    for target in list(interventions_dict):\n        if type(interventions_dict[target]) in [float, int]:\n            interventions_dict[target] = (interventions_dict[target], 0)\n    for (target, params) in interventions_dict.items():",
+  note="the caller's intervention dict is rewritten in place (scalars become tuples)")
